@@ -86,7 +86,17 @@ func (u *Unit) call(st *State, c *ast.CallExpr) []Val {
 			}
 			recv = &rv
 		}
+		// the temporary receiver cell of (&x).M(args) must survive nested calls in args, and
+		// must hold x's value at call time (args are evaluated after &x but before the call)
+		wb, hasWB := st.ghost["writeback"]
+		delete(st.ghost, "writeback")
 		args := u.evalArgs(st, c, sigT)
+		if hasWB {
+			if id, ok := ast.Unparen(recvExpr).(*ast.Ident); ok {
+				u.storeDeref(st, wb, u.eval(st, id))
+			}
+			st.ghost["writeback"] = wb
+		}
 		return u.callFunc(st, fo, recv, args, c, sigT)
 	case *types.Var:
 		// function value: closure bound to a known literal, or unknown
